@@ -33,14 +33,33 @@ from vf.props import _c28_space as space
 LEVEL = 'model_checking'
 
 # ---- driver log seam ---------------------------------------------------------------------------
-SQLLOG = []
+SQLLOG = []          # statement texts
+SQLARGS = []         # parallel: the parameter tuple of each statement (None for executemany)
 class RecCursor(sqlite3.Cursor):
     def execute(self, sql, *a):
-        SQLLOG.append(sql)
+        SQLLOG.append(sql); SQLARGS.append(a[0] if a else ())
         return sqlite3.Cursor.execute(self, sql, *a)
     def executemany(self, sql, *a):
-        SQLLOG.append(sql)
+        SQLLOG.append(sql); SQLARGS.append(None)
         return sqlite3.Cursor.executemany(self, sql, *a)
+
+def written_rows(start):
+    """[(table, pk or None, statement)] of the INSERT/UPDATE/DELETE statements logged since `start`"""
+    out = []
+    for sql, args in zip(SQLLOG[start:], SQLARGS[start:]):
+        head = sql.lstrip()[:6].upper()
+        if head not in ('UPDATE', 'INSERT', 'DELETE'): continue
+        pk = None
+        try:
+            table = sql.split('"')[1]
+            if head == 'UPDATE': pk = args[sql[:sql.index('WHERE')].count('?')]
+            elif head == 'DELETE': pk = args[0]
+            else:
+                cols = sql[sql.index('(') + 1:sql.index(')')].replace('"', '').replace(' ', '').split(',')
+                pk = args[cols.index('id')]
+        except Exception: table = '?'
+        out.append((table, pk, sql))
+    return out
 class RecConnection(sqlite3.Connection):
     def cursor(self, *a, **k):
         return sqlite3.Connection.cursor(self, RecCursor)
@@ -70,6 +89,117 @@ def _ns(obj):
 def canon(v):
     return json.dumps(v, sort_keys=True)
 
+# ---- contexts: how the object and its value came to be before the first step -----------------------
+# origin = '<provenance>-<phase>[+<pre-state modifier>]'  (the five historical names are aliases)
+#   provenance  db          value loaded from the database
+#               literal     obj.attr = <plain value>
+#               ctor        Entity(id=1, attr=<plain value>)
+#               peer        obj.attr = peer.attr            (tracked value of ANOTHER object, same attribute)
+#               peernested  obj.attr = peer.attr['w']       (nested tracked value of another object; Json only)
+#               sibling     obj.attr = obj.<sibling attr>   (tracked value of the SAME object, other attribute)
+#               ctorpeer    Entity(id=1, attr=peer.attr)
+#               donor       peer.attr = obj.attr            (obj's value was handed to another object)
+#               selfnested  obj.attr = obj.attr['w']        (own nested tracked value becomes the root; Json only)
+#   phase       pending (nothing flushed) | flushed (flush()) | committed (commit(), same db_session)
+#   modifier    dirty-scalar   obj.note = 'x'               pending change on ANOTHER (scalar) attribute
+#               dirty-json     obj.other = <new value>      pending change on another Json/array attribute
+#               dirty-inplace  in-place change of another Json/array attribute
+#               clean-other    obj.note = 'x'; flush()      another attribute was saved in this session
+ALIASES = dict(loaded='db-pending', inserted='ctor-flushed', created='ctor-pending', updated='literal-flushed',
+               assigned='literal-pending')
+SIBLING = dict(json='tail', IntArray='ia2', StrArray='sa2', FloatArray='fa2')
+PROVENANCES = ('db', 'literal', 'ctor', 'peer', 'peernested', 'sibling', 'ctorpeer', 'donor', 'selfnested')
+PHASES = ('pending', 'flushed', 'committed')
+MODIFIERS = ('', 'dirty-scalar', 'dirty-json', 'dirty-inplace', 'clean-other')
+
+def parse_origin(origin):
+    base, _, mod = origin.partition('+')
+    prov, phase = ALIASES.get(base, base).split('-')
+    assert prov in PROVENANCES and phase in PHASES and mod in MODIFIERS, origin
+    return prov, phase, mod
+
+class Context(object):
+    """fixture rows + in-session setup + the expected values of everything that is NOT the target"""
+    def __init__(self, vk, origin, doc):
+        self.vk, self.origin, self.doc = vk, origin, doc
+        self.prov, self.phase, self.mod = prov, phase, mod = parse_origin(origin)
+        self.json = js = vk == 'json'
+        self.target = t = 'data' if js else space.ARRAY_ATTR[vk]
+        self.sib = sib = SIBLING[vk]
+        if js:
+            row = dict(note='n', other={'o': [1]}, data={'old': [0]}, tail=[{'t': 1}])
+            self.other2, self.inplace_attr, self.inplace_val = {'o': [2]}, 'tail', [{'t': 2}]
+        else:
+            row = dict(note='n', other=[7], ia=[], sa=[], fa=[], ia2=[], sa2=[], fa2=[])
+            row[t] = doc[:1]
+            self.other2, self.inplace_attr, self.inplace_val = [7, 8], 'other', [7, 8]
+        if prov in ('peernested', 'selfnested') and not js: raise ValueError('Json only: ' + origin)
+        r1, r2 = copy.deepcopy(row), None
+        if prov == 'db': r1[t] = doc
+        elif prov == 'ctor': r1 = None
+        elif prov == 'peer': r2 = dict(copy.deepcopy(row)); r2[t] = doc
+        elif prov == 'peernested': r2 = dict(copy.deepcopy(row)); r2[t] = {'w': doc}
+        elif prov == 'sibling': r1[sib] = doc
+        elif prov == 'ctorpeer': r1 = None; r2 = dict(copy.deepcopy(row)); r2[t] = doc
+        elif prov == 'donor': r1[t] = doc; r2 = copy.deepcopy(row)
+        elif prov == 'selfnested': r1[t] = {'w': doc}
+        self.rows = {1: r1, 2: r2}
+        self.ctor_row = copy.deepcopy(row)
+        # what a new session (and memory) must show for everything but obj.<target>
+        e1 = copy.deepcopy(r1 if r1 is not None else row); e1.pop(t)
+        if prov == 'sibling': e1[sib] = copy.deepcopy(doc)
+        if mod in ('dirty-scalar', 'clean-other'): e1['note'] = 'x'
+        elif mod == 'dirty-json': e1['other'] = copy.deepcopy(self.other2)
+        elif mod == 'dirty-inplace': e1[self.inplace_attr] = copy.deepcopy(self.inplace_val)
+        e2 = copy.deepcopy(r2)
+        if prov == 'donor': e2[t] = copy.deepcopy(doc)      # the value at the time of the assignment
+        self.expect = {1: e1, 2: e2}
+
+    def setup(self, env):
+        """inside a db_session; returns (obj, peer or None)"""
+        orm, ent, t, doc = env.orm, (env.E if self.json else env.A), self.target, self.doc
+        prov, peer = self.prov, None
+        if prov in ('ctor', 'ctorpeer'):
+            kw = copy.deepcopy(self.ctor_row)
+            if prov == 'ctor': kw[t] = copy.deepcopy(doc)
+            else:
+                peer = ent[2]; kw[t] = getattr(peer, t)
+            obj = ent(id=1, **kw)
+        else:
+            obj = ent[1]
+            if prov == 'db': getattr(obj, t)
+            elif prov == 'literal': setattr(obj, t, copy.deepcopy(doc))
+            elif prov == 'peer': peer = ent[2]; setattr(obj, t, getattr(peer, t))
+            elif prov == 'peernested': peer = ent[2]; setattr(obj, t, getattr(peer, t)['w'])
+            elif prov == 'sibling': setattr(obj, t, getattr(obj, self.sib))
+            elif prov == 'donor': peer = ent[2]; setattr(peer, t, getattr(obj, t))
+            elif prov == 'selfnested': setattr(obj, t, getattr(obj, t)['w'])
+        if self.phase == 'flushed': orm.flush()
+        elif self.phase == 'committed': orm.commit()
+        mod = self.mod
+        if mod == 'dirty-scalar': obj.note = 'x'
+        elif mod == 'dirty-json': obj.other = copy.deepcopy(self.other2)
+        elif mod == 'dirty-inplace':
+            v = getattr(obj, self.inplace_attr)
+            if self.json: v[0]['t'] = 2
+            else: v.append(8)
+        elif mod == 'clean-other':
+            obj.note = 'x'; orm.flush()
+        return obj, peer
+
+def _plainval(v):
+    return v.get_untracked() if hasattr(v, 'get_untracked') else v
+
+def mismatches(o, expected):
+    """attributes of entity instance `o` whose value differs from the expected plain value"""
+    bad = []
+    for name in sorted(expected):
+        got = _plainval(getattr(o, name))
+        want = expected[name]
+        if not (got == want and (isinstance(want, str) or canon(got) == canon(want))):
+            bad.append('%s=%s (expected %s)' % (name, canon(got), canon(want)))
+    return bad
+
 # ---- the environment (one per process) -----------------------------------------------------------
 class Env(object):
     _inst = None
@@ -85,15 +215,20 @@ class Env(object):
         db = self.db = orm.Database()
         class E(db.Entity):
             id = orm.PrimaryKey(int)
+            note = orm.Optional(str)
             other = orm.Optional(orm.Json)
             data = orm.Optional(orm.Json)
             tail = orm.Optional(orm.Json)
         class A(db.Entity):
             id = orm.PrimaryKey(int)
+            note = orm.Optional(str)
             other = orm.Optional(orm.IntArray)
             ia = orm.Optional(orm.IntArray)
             sa = orm.Optional(orm.StrArray)
             fa = orm.Optional(orm.FloatArray)
+            ia2 = orm.Optional(orm.IntArray)
+            sa2 = orm.Optional(orm.StrArray)
+            fa2 = orm.Optional(orm.FloatArray)
         self.E, self.A = E, A
         # private in-memory database; the pooled connection survives between db_sessions, every
         # db_session has a fresh cache, so a new session can only see what was really written
@@ -105,51 +240,16 @@ class Env(object):
         self.TrackedValue = TrackedValue
 
     # -- fixture ------------------------------------------------------------------------------
-    def reset(self, vk, origin, doc):
+    def reset(self, cx):
         raw = self.raw
-        if vk == 'json':
-            raw.execute('delete from E')
-            if origin in ('loaded',):
-                raw.execute('insert into E (id, other, data, tail) values (1, ?, ?, ?)',
-                            (json.dumps({'o': [1]}), json.dumps(doc), json.dumps([{'t': 1}])))
-            elif origin in ('updated', 'assigned'):
-                raw.execute('insert into E (id, other, data, tail) values (1, ?, ?, ?)',
-                            (json.dumps({'o': [1]}), json.dumps({'old': [0]}), json.dumps([{'t': 1}])))
-        else:
-            raw.execute('delete from A')
-            col = space.ARRAY_ATTR[vk]
-            if origin == 'loaded':
-                self._ins_a(col, json.dumps(doc))
-            elif origin in ('updated', 'assigned'):
-                self._ins_a(col, json.dumps(doc[:1]))
-
-    def _ins_a(self, col, text):
-        vals = dict(ia='[]', sa='[]', fa='[]'); vals[col] = text
-        self.raw.execute('insert into A (id, other, ia, sa, fa) values (1, ?, ?, ?, ?)',
-                         (json.dumps([7]), vals['ia'], vals['sa'], vals['fa']))
-
-    def obtain(self, vk, origin, doc):
-        """inside a db_session: bring the object into the origin state; returns obj"""
-        orm = self.orm
-        if vk == 'json':
-            ent, name = self.E, 'data'
-            extra = dict(other={'o': [1]}, tail=[{'t': 1}])
-        else:
-            ent, name = self.A, space.ARRAY_ATTR[vk]
-            extra = dict(other=[7])
-        if origin == 'loaded':
-            obj = ent[1]
-        elif origin in ('created', 'inserted'):
-            kw = dict(extra); kw[name] = copy.deepcopy(doc)
-            obj = ent(id=1, **kw)
-            if origin == 'inserted': orm.flush()
-        else:
-            obj = ent[1]
-            setattr(obj, name, copy.deepcopy(doc))
-            if origin == 'updated': orm.flush()
-        return obj, name
-
-EXPECT_STATUS = dict(loaded='loaded', inserted='inserted', updated='updated', created='created', assigned='modified')
+        table = 'E' if cx.json else 'A'
+        raw.execute('delete from %s' % table)
+        for pk in (1, 2):
+            row = cx.rows[pk]
+            if row is None: continue
+            cols = sorted(row)
+            raw.execute('insert into %s (id, %s) values (?, %s)' % (table, ', '.join(cols), ', '.join('?' * len(cols))),
+                        [pk] + [row[c] if c == 'note' else json.dumps(row[c]) for c in cols])
 
 def _exec(src, ns):
     try:
@@ -157,6 +257,9 @@ def _exec(src, ns):
     except Exception as e:
         return type(e).__name__
     return None
+
+def _marks(o):
+    return (o._status_, o._wbits_)
 
 def run_program(prog, diagnose=False):
     """Execute one program against Pony and against the plain twin.
@@ -167,18 +270,35 @@ def run_program(prog, diagnose=False):
     doc = copy.deepcopy(prog['docvalue']) if prog.get('docvalue') is not None else space.document(vk, prog['doc'])
     attrname = 'data' if vk == 'json' else space.ARRAY_ATTR[vk]
     readonly = prog.get('readonly', False)
-    env.reset(vk, origin, doc)
+    cx = Context(vk, origin, doc)
+    env.reset(cx)
+    ent = env.E if vk == 'json' else env.A
     plain = Holder(copy.deepcopy(doc))
     if attrname != 'data': setattr(plain, attrname, plain.data)
     problems, states, notes = [], [], []
     out = dict(problems=problems, states=states, notes=notes, changed=False, refused=0, both_raise=0,
-               executed_steps=0, untracked_after=None, raised=[], refused_steps=[])
-    del SQLLOG[:]
+               executed_steps=0, untracked_after=None, raised=[], refused_steps=[], mark_status=None)
+    del SQLLOG[:]; del SQLARGS[:]
     try:
         with orm.db_session:
-            obj, _ = env.obtain(vk, origin, doc)
+            obj, peer = cx.setup(env)
             mark = len(SQLLOG)
-            expected_status = EXPECT_STATUS[origin]
+            bit = obj._bits_[getattr(ent, attrname)]
+            obj_marks = _marks(obj)                       # (status, write bits) the reads must preserve
+            peer_marks = _marks(peer) if peer is not None else None
+            out['mark_status'] = obj_marks[0]
+            # rows that legitimately have something to write at this point
+            def pending_rows():
+                return set(o._pk_ for o in (obj, peer) if o is not None and o._status_ in ('created', 'modified'))
+            def check_writes(start, pending):
+                allowed = set(pending)
+                if not readonly: allowed.add(1)
+                for table, pk, sql in written_rows(start):
+                    if pk not in allowed:
+                        if pk == 1: problems.append((None, 'write-after-read', sql[:80]))
+                        else: problems.append((None, 'bystander-written', 'row %r was only read: %s' % (pk, sql[:80])))
+                        break
+            pending = pending_rows()
             saved = canon(getattr(plain, attrname))       # value at the last save point
             ns_t, ns_p = _ns(obj), _ns(plain)
             for i, src in enumerate(steps):
@@ -187,8 +307,10 @@ def run_program(prog, diagnose=False):
                     saved = canon(getattr(plain, attrname))
                     if obj._status_ == 'modified':
                         problems.append((i, 'flush-left-modified', ''))
-                    expected_status = obj._status_
-                    mark = len(SQLLOG)
+                    obj_marks = _marks(obj)
+                    if peer is not None: peer_marks = _marks(peer)
+                    check_writes(mark, pending)
+                    mark, pending = len(SQLLOG), pending_rows()
                 before = copy.deepcopy(getattr(plain, attrname))
                 ex_p = _exec(src, ns_p)
                 ex_t = _exec(src, ns_t)
@@ -213,31 +335,40 @@ def run_program(prog, diagnose=False):
                     problems.append((i, 'memory', 'in-memory value %s, plain Python gives %s' % (canon(tv), cur)))
                 status = obj._status_
                 if readonly:
-                    if status != expected_status:
-                        problems.append((i, 'marked-by-read', 'status %r -> %r' % (expected_status, status)))
+                    if _marks(obj) != obj_marks:
+                        problems.append((i, 'marked-by-read', 'status, write bits %r -> %r' % (obj_marks, _marks(obj))))
                 elif cur != saved and status not in ('modified', 'created'):
                     problems.append((i, 'not-marked', 'value changed but status is %r' % status))
+                elif cur != saved and status == 'modified' and not (obj._wbits_ & bit):
+                    problems.append((i, 'not-marked', 'value changed, status is %r but the write bit of %s is not set '
+                                     '(write bits %r)' % (status, attrname, obj._wbits_)))
+                if peer is not None and _marks(peer) != peer_marks:
+                    problems.append((i, 'bystander-marked', 'the other object was only read: status, write bits %r -> %r'
+                                     % (peer_marks, _marks(peer))))
                 states.append((status, cur))
                 if diagnose and out['untracked_after'] is None and _untracked(env, obj, tv):
                     out['untracked_after'] = i
             final = getattr(plain, attrname)
             out['changed'] = canon(final) != canon(doc)
+            # everything that is not the target still has its value in memory
+            bad = mismatches(obj, cx.expect[1])
+            if bad: problems.append((None, 'neighbour-memory', 'other attribute changed in memory: ' + '; '.join(bad)))
+            if peer is not None:
+                bad = mismatches(peer, cx.expect[2])
+                if bad: problems.append((None, 'bystander-memory', 'the other object changed in memory: ' + '; '.join(bad)))
         # session left normally -> commit
-        writes = [s for s in SQLLOG[mark:] if s.lstrip().upper().startswith(('UPDATE', 'INSERT', 'DELETE'))]
-        if readonly and origin != 'created' and writes:
-            problems.append((None, 'write-after-read', writes[0][:80]))
+        check_writes(mark, pending)
         with orm.db_session:
-            ent = env.E if vk == 'json' else env.A
             obj2 = ent[1]
             got = getattr(obj2, attrname)
             if not (got == final and canon(got) == canon(final)):
                 problems.append((None, 'persisted', 'new session reads %s, expected %s' % (canon(got), canon(final))))
             # the neighbours must be untouched
-            if vk == 'json':
-                if not (obj2.other == {'o': [1]} and obj2.tail == [{'t': 1}]):
-                    problems.append((None, 'neighbour', 'other attribute changed: %r %r' % (obj2.other, obj2.tail)))
-            elif list(obj2.other) != [7]:
-                problems.append((None, 'neighbour', 'other attribute changed: %r' % (obj2.other,)))
+            bad = mismatches(obj2, cx.expect[1])
+            if bad: problems.append((None, 'neighbour', 'other attribute changed: ' + '; '.join(bad)))
+            if cx.expect[2] is not None:
+                bad = mismatches(ent[2], cx.expect[2])
+                if bad: problems.append((None, 'bystander-persisted', 'the other object changed: ' + '; '.join(bad)))
     except Exception as e:
         import traceback
         problems.append((None, 'session-error', '%s: %s' % (type(e).__name__, str(e)[:200])))
@@ -256,7 +387,8 @@ def _untracked(env, obj, value):
             stack.extend(v.values() if isinstance(v, dict) else v)
     return False
 
-PRIORITY = ('not-marked', 'marked-by-read', 'write-after-read', 'memory', 'persisted', 'neighbour',
+PRIORITY = ('not-marked', 'marked-by-read', 'write-after-read', 'memory', 'persisted', 'bystander-marked',
+            'bystander-written', 'bystander-memory', 'bystander-persisted', 'neighbour', 'neighbour-memory',
             'no-exception', 'flush-left-modified', 'session-error')
 
 # ---- signatures ------------------------------------------------------------------------------------
@@ -271,6 +403,20 @@ def signature(prog, res):
     vkind = 'json' if prog['vk'] == 'json' else 'array'
     def shape(m, j):
         return '%s:%s%s:%s' % (m['ckind'], m['op'], '!raises' if j in res['raised'] else '', m['route'])
+    if prog['origin'] not in ALIASES:
+        # a context beyond the five historical origins: is the context part of the minimal shape?
+        r = run_program(dict(prog, origin='loaded'))
+        if r['problems']: return signature(dict(prog, origin='loaded'), r)
+        base, _, mod = prog['origin'].partition('+')
+        feature = base
+        if mod:
+            r = run_program(dict(prog, origin=base))
+            if r['problems']: return signature(dict(prog, origin=base), r)
+            feature = '+' + mod          # fails only with the pre-state modifier
+        if len(metas) == 1:
+            return '%s:ctx[%s]:%s:%s' % (vkind, feature, shape(metas[0], 0), primary)
+        return '%s:ctx[%s]:seq[%s%s%s]:%s' % (vkind, feature, shape(metas[0], 0),
+                                             ' ; flush ; ' if prog.get('flush') else ' ; ', shape(metas[1], 1), primary)
     if len(metas) == 1:
         return '%s:%s:%s' % (vkind, shape(metas[0], 0), primary)
     base = dict(prog, flush=False)
@@ -342,6 +488,10 @@ def _one(sub, prog):
     sub.count('programs')
     sub.count('programs:%s:%s' % (prog['vk'], 'readonly' if prog.get('readonly') else 'len%d' % len(prog['steps'])))
     sub.count('steps_executed', res['executed_steps'])
+    if prog['origin'] not in ALIASES:
+        sub.count('programs_in_added_contexts')
+        sub.count('context:%s:%s' % (prog['origin'], 'readonly' if prog.get('readonly') else 'len%d' % len(prog['steps'])))
+    sub.count('status_before_first_step:%s' % res['mark_status'])
     if res['refused']: sub.count('steps_refused_by_pony', res['refused'])
     for n in res['notes']: sub.count(n)
     if res['refused']:
@@ -361,28 +511,56 @@ def _one(sub, prog):
                       + ' | program: ' + ' ;; '.join(prog['steps']))
 
 ORIGINS = ('loaded', 'inserted', 'updated', 'created', 'assigned')
+RO_ORIGINS = ('loaded', 'inserted', 'updated')
+# contexts beyond the historical origins (see Context): object pre-states x value provenances
+PRESTATE_CONTEXTS = (
+    'db-pending+dirty-scalar', 'db-pending+dirty-json', 'db-pending+dirty-inplace', 'db-pending+clean-other',
+    'ctor-flushed+dirty-scalar', 'literal-flushed+dirty-scalar', 'literal-flushed+dirty-inplace',
+    'db-committed', 'literal-committed', 'ctor-committed', 'db-committed+dirty-scalar')
+PROVENANCE_CONTEXTS = tuple('%s-%s' % (p, ph) for p in ('peer', 'peernested', 'sibling', 'ctorpeer', 'donor', 'selfnested')
+                            for ph in PHASES) + ('peer-flushed+dirty-scalar', 'donor-flushed+dirty-scalar',
+                                                 'sibling-flushed+dirty-inplace')
+CONTEXTS = PRESTATE_CONTEXTS + PROVENANCE_CONTEXTS
+RO_CONTEXTS = ('db-pending+dirty-scalar', 'db-pending+dirty-inplace', 'db-committed', 'literal-pending', 'ctor-pending',
+               'peer-pending', 'peer-flushed', 'peer-committed', 'peernested-flushed', 'sibling-pending',
+               'sibling-flushed', 'ctorpeer-pending', 'ctorpeer-flushed', 'donor-pending', 'donor-flushed',
+               'selfnested-flushed')
+LEN2_CONTEXTS = ('db-pending+dirty-scalar', 'peer-pending', 'sibling-pending', 'donor-pending')
+
+def applicable(vk, origin):
+    return vk == 'json' or parse_origin(origin)[0] not in ('peernested', 'selfnested')
 
 def plan(ctx):
     items = []
     def chunks(n, size):
         return [list(range(i, min(n, i + size))) for i in range(0, n, size)]
+    wide = 'core' if ctx.quick else 'all'        # routes of the programs run in the added contexts
     for vk, docname in space.DOCUMENTS:
         doc = space.document(vk, docname)
-        n_all = len(space.steps(vk, doc, readonly=False, routes='all'))
-        n_ro = len(space.steps(vk, doc, readonly=True, routes='all'))
+        n = dict((ro, dict((r, len(space.steps(vk, doc, readonly=ro, routes=r))) for r in ('all', 'core')))
+                 for ro in (False, True))
         for origin in ORIGINS:
-            for ch in chunks(n_all, 100):
+            for ch in chunks(n[False]['all'], 100):
                 items.append(dict(vk=vk, doc=docname, origin=origin, mode='len1', routes='all', first=ch))
-        for origin in ('loaded', 'inserted', 'updated'):
-            for ch in chunks(n_ro, 100):
+        for origin in RO_ORIGINS:
+            for ch in chunks(n[True]['all'], 100):
                 items.append(dict(vk=vk, doc=docname, origin=origin, mode='ro', routes='all', first=ch))
+        for origin in CONTEXTS:
+            if not applicable(vk, origin): continue
+            for ch in chunks(n[False][wide], 100):
+                items.append(dict(vk=vk, doc=docname, origin=origin, mode='len1', routes=wide, first=ch))
+        for origin in RO_CONTEXTS:
+            if not applicable(vk, origin): continue
+            for ch in chunks(n[True][wide], 100):
+                items.append(dict(vk=vk, doc=docname, origin=origin, mode='ro', routes=wide, first=ch))
         # length 2: (routes of step 1, routes of step 2, origins, flush variants)
         if ctx.quick:
             combos = [('attr+aug-alias', 'core', ('loaded',), (True,))]
         else:
             combos = [('core', 'all', ('loaded',), (True,)),
                       ('core', 'core', ('loaded',), (False,)),
-                      ('core', 'core', ('inserted', 'updated'), (True,))]
+                      ('core', 'core', ('inserted', 'updated'), (True,)),
+                      ('attr', 'attr', LEN2_CONTEXTS, (True,))]
         for r1, r2, origins2, flushes in combos:
             n1 = len(space.steps(vk, doc, readonly=False, routes=r1))
             for origin in origins2:
@@ -402,15 +580,24 @@ def run(ctx):
         states.update(d['states'])
         keys += d['keys']
     collapse_routes(ctx)
+    collapse_contexts(ctx)
     c = ctx.counters
     ctx.guard('programs executed', c.get('programs', 0), 5000)
     ctx.guard('programs that change the value', c.get('programs_changing_the_value', 0), 2000)
     ctx.guard('read-only programs', c.get('programs:json:readonly', 0), 300)
     ctx.guard('array programs', sum(v for k, v in c.items() if k.startswith('programs:') and not k.startswith('programs:json')), 500)
     ctx.guard('length-2 programs', c.get('programs:json:len2', 0), 1000)
+    ctx.guard('programs in the added contexts', c.get('programs_in_added_contexts', 0), 10000)
+    for st in ('loaded', 'inserted', 'updated', 'created', 'modified'):
+        ctx.guard('programs starting from status %s' % st, c.get('status_before_first_step:%s' % st, 0), 500)
+    ctx.guard('contexts with a second object', sum(v for k, v in c.items() if k.startswith(
+        ('context:peer', 'context:ctorpeer', 'context:donor'))), 3000)
     ctx.cov['bounds'] = dict(
         documents=[list(d) for d in space.DOCUMENTS], nesting=2, program_length=2,
-        length1_routes='all', length1_origins=list(ORIGINS), readonly_origins=['loaded', 'inserted', 'updated'],
+        length1_routes='all', length1_origins=list(ORIGINS), readonly_origins=list(RO_ORIGINS),
+        added_contexts=list(CONTEXTS), added_readonly_contexts=list(RO_CONTEXTS),
+        added_context_routes='{attr, full alias}' if ctx.quick else 'all',
+        added_context_length2='none' if ctx.quick else 'attr x attr with a flush between the steps in %s' % (LEN2_CONTEXTS,),
         length2=('step1 through the attribute (augmented assignments also through a full alias) x step2 routes '
                  '{attr, full alias}, origin loaded, flush between the steps' if ctx.quick else
                  'step1 routes {attr, full alias} x step2 all routes from origin loaded with a flush between the steps; '
@@ -443,6 +630,23 @@ def collapse_routes(ctx):
                 if merged is None: merged = e
                 else: merged['n'] += e['n']
             ctx.found[new] = merged
+
+def collapse_contexts(ctx):
+    """A context that breaks (nearly) every operation is one shape, not one per operation: four or more
+    operation shapes failing the same way in the same context -> '<kind>:ctx[..]:*:<what>'."""
+    import re
+    groups = {}
+    for sig in list(ctx.found):
+        m = re.match(r'^(\w+:ctx\[[^\]]+\]):(.+):([\w-]+)$', sig)
+        if m: groups.setdefault((m.group(1), m.group(3)), []).append(sig)
+    for (head, tail), members in groups.items():
+        if len(members) < 4: continue
+        merged = None
+        for sig in sorted(members):
+            e = ctx.found.pop(sig)
+            if merged is None: merged = e
+            else: merged['n'] += e['n']
+        ctx.found['%s:*:%s' % (head, tail)] = merged
 
 def replay(ctx, case):
     prog = dict(case)
